@@ -112,6 +112,7 @@ func ValidateNodeGroup(nodegroup NodeGroupOptions) []error {
 		checkThat(nodegroup.MinNodes >= 0, "min_nodes must be not less than 0")
 	}
 
+	checkThat(nodegroup.SlowNodeRemovalRate >= 0, "slow_node_removal_rate must be not less than 0")
 	checkThat(nodegroup.SlowNodeRemovalRate <= nodegroup.FastNodeRemovalRate, "slow_node_removal_rate must be less than fast_node_removal_rate")
 
 	checkThat(len(nodegroup.SoftDeleteGracePeriod) > 0, "soft_delete_grace_period must not be empty")
